@@ -78,7 +78,9 @@ def cases(draw, tier):
         followers.append(head + text[cut:])
     if followers and rng.random() < 0.5:
         followers.append(text)
-    return {"cfg": cfg, "text": text, "followers": followers}
+    if draw(st.sampled_from([False, False, False, True])):
+        cfg = dict(cfg, tuples=True)
+    return {"cfg": cfg, "text": text, "followers": followers, "np_str": draw(st.sampled_from([False, False, True]))}
 
 
 def evaluate(case):
@@ -100,9 +102,14 @@ def evaluate(case):
         labels.append("trailing_newline")
     acgt = all(c in o.NUC for c in text)
     verdicts = {}
+    argument = text
+    if case.get("np_str"):
+        import numpy
+        argument = numpy.str_(text)
+        labels.append("numpy_str")
     for only_last in (False, True):
         want = o.ref_local_filter(cfg, text, only_last=only_last)
-        got = lib_call(built.valid, text, only_last=only_last)
+        got = lib_call(built.valid, argument, only_last=only_last)
         if isinstance(got, Raised):
             return bad("valid(%r, only_last=%s) raised %r for %r" % (text, only_last, got, cfg), labels)
         verdicts[only_last] = got
